@@ -77,6 +77,6 @@ def cross(chk, owner, trace_module, *, trace_cfg=None, sig_of=None, tier="quick"
     """Judge the corpus with `trace_module`; rejected scenarios are violations of the calling property."""
     scns, sizes = build(owner, tier, cap, exclude)
     wd = vlib.workdir(f"{owner}-corpus")
-    n = common.run_sim(chk, wd, scns, trace_module, label=label, shards=12, sig_of=sig_of, trace_cfg=trace_cfg, env_extra=env_extra)
+    n = common.run_sim(chk, wd, scns, trace_module, label=label, shards=12, sig_of=sig_of, trace_cfg=trace_cfg, env_extra=env_extra, schedules=[])
     chk.notes["corpus"] = {"families": sizes, "executed": n, "judged_by": trace_module}
     return n
